@@ -1269,7 +1269,11 @@ pub fn process_complete_version<T: Deref<Target = rusqlite::Connection> + Commit
 
     let mut impactful_changeset = vec![];
 
-    let mut last_rows_impacted = 0;
+    // crsql_rows_impacted() counts since the beginning of the transaction, and several
+    // changesets are applied in the same one: start from where the previous changeset left it
+    let mut last_rows_impacted: i64 = sp
+        .prepare_cached("SELECT crsql_rows_impacted()")?
+        .query_row((), |row| row.get(0))?;
 
     let mut changes_per_table = BTreeMap::new();
 
